@@ -455,6 +455,54 @@ def comparable (fr fd : NF.Frac) : Bool :=
   let vd := fracVars fd
   sameSet vr vd && independentAtoms vr
 
+/-! ### a cost guard for the normaliser
+
+Fractions are not reduced, so sums of terms with different denominators multiply all of them up: a product of four
+sums under the exponent -3, differentiated, has a normal form with millions of terms.  `est` is a crude upper estimate
+of (numerator terms, denominator terms); the driver answers `SKIP:too-large` instead of normalising such cases. -/
+
+def capN : Nat := 100000000
+
+def capMul (a b : Nat) : Nat := min capN (a * b)
+
+def capPow (a n : Nat) : Nat :=
+  if a ≤ 1 then a else if n ≥ 27 then capN else min capN (a ^ n)
+
+mutual
+  def est : Expr → Nat × Nat
+    | .add c ts => estTerms ts (est c)
+    | .mul c fs => estFacs fs (est c)
+    | .pow b (.int n) =>
+      let pq := est b
+      if n ≥ 0 then (capPow pq.1 n.natAbs, capPow pq.2 n.natAbs) else (capPow pq.2 n.natAbs, capPow pq.1 n.natAbs)
+    | _ => (1, 1)
+  /-- `n/d + Σ kᵢ·vᵢ` -/
+  def estTerms : List (Expr × Expr) → Nat × Nat → Nat × Nat
+    | [], acc => acc
+    | (k, v) :: t, acc =>
+      let a := est k
+      let b := est v
+      let pn := capMul a.1 b.1
+      let qd := capMul a.2 b.2
+      estTerms t (if qd == 1 then (min capN (acc.1 + capMul pn acc.2), acc.2)
+                  else (min capN (capMul acc.1 qd + capMul pn acc.2), capMul acc.2 qd))
+  /-- `n/d · Π bᵢ^eᵢ` -/
+  def estFacs : List (Expr × Expr) → Nat × Nat → Nat × Nat
+    | [], acc => acc
+    | (b, .int n) :: t, acc =>
+      let pq := est b
+      let r : Nat × Nat :=
+        if n ≥ 0 then (capPow pq.1 n.natAbs, capPow pq.2 n.natAbs) else (capPow pq.2 n.natAbs, capPow pq.1 n.natAbs)
+      estFacs t (capMul acc.1 r.1, capMul acc.2 r.2)
+    | _ :: t, acc => estFacs t acc
+end
+
+/-- the comparison `NF.equivF (normT r) (normT d)` is affordable -/
+def affordable (r d : Expr) : Bool :=
+  let a := est r
+  let b := est d
+  a.1 ≤ 20000 && a.2 ≤ 20000 && b.1 ≤ 20000 && b.2 ≤ 20000 && a.1 * b.2 + b.1 * a.2 ≤ 3000000
+
 inductive Verdict where
   | ok
   | skip (why : String)
@@ -472,6 +520,7 @@ def accepts (x : String) (e r : Expr) : Bool := NF.equiv r (diffE x e)
 
 /-- comparison of the library's result `r` with the model's derivative `d` of `e` -/
 def judgeNF (e r d : Expr) : Verdict :=
+  if !affordable r d then .skip "too-large" else
   match NF.firstErr r, NF.firstErr d with
   | some err, _ => .skip ("result-" ++ err.toString)
   | _, some err => .skip ("model-" ++ err.toString)
